@@ -443,6 +443,56 @@ func c16Special(t *engine.T) {
 		cases = append(cases, struct{ name, src, want string }{"recursion 60 deep, twice", `<% let sum = fn(n) { if (n == 0) { return 0 }
  return n + sum(n - 1) } %><%= sum(60) %>|<%= sum(60) %>`, "1830|1830"})
 	}
+	// a path written after the call continues from the result, in the CALLER's scope: indexes and arguments in it that
+	// use a name the function binds too (parameter, let) mean the caller's variable
+	cases = append(cases,
+		struct{ name, src, want string }{"index after the call names a variable the function binds as parameter", `<% let pick = fn(i) { return pers } %><% let i = 0 %><%= pick(1).Tags[i] %>|<%= pick(0).Tags[i + 1] %>`, "t0|t1"},
+		struct{ name, src, want string }{"index after the call names a variable the function lets", `<% let pick = fn() { let i = 1
+ return pers } %><% let i = 0 %><%= pick().Tags[i] %>`, "t0"},
+		struct{ name, src, want string }{"method argument after the call names a parameter", `<% let pick = fn(a) { return pers } %><% let a = 5 %><%= pick(1).Add(a) %>`, "6"},
+		struct{ name, src, want string }{"map key after the call names a parameter", `<% let pick = fn(k) { return pers } %><% let k = "k" %><%= pick("zz").Attrs[k] %>`, "v"},
+		struct{ name, src, want string }{"path after the call inside another function with swapped names", `<% let pick = fn(i, j) { return pers } %><% let outer = fn(j, i) { let a = pick(1, 1).Tags[i]
+ let b = pick(0, 0).Tags[j]
+ return a + b } %><%= outer(1, 0) %>`, "t0t1"},
+		struct{ name, src, want string }{"path after the call names a variable unknown to the caller", `<% let pick = fn(i) { return pers } %><%= if (true) { %><% let r = "" %><% } %><%= pick(1).Tags[0] %>`, "t0"},
+		// parameters whose names repeat: every position still takes its own argument
+		struct{ name, src, want string }{"two ignored parameters then a named one", `<% let f = fn(_, _, x) { return x } %><%= f(1, 2, 3) %>`, "3"},
+		struct{ name, src, want string }{"ignored parameters around named ones", `<% let f = fn(_, a, _, b) { return a + b } %><%= f(1, 20, 3, 400) %>`, "420"},
+		struct{ name, src, want string }{"one ignored parameter", `<% let f = fn(_, x) { return x } %><%= f(1, 2) %>`, "2"},
+	)
+	// a name that repeats in the parameter list: the call is refused or binds the name to one of the arguments
+	// given for it - the arity stays what was written
+	for _, src := range []string{`<% let f = fn(a, a) { return a } %><%= f(1, 2) %>`, `<% let f = fn(a, b, a) { return a + b } %><%= f(1, 20, 300) %>`} {
+		src := src
+		t.Case("special repeated parameter name "+q(src), true, func() (string, *engine.Fail) {
+			e := &c16Env{}
+			out, err := Render(src, e.context())
+			if err != nil {
+				if strings.Contains(err.Error(), "too many arguments") {
+					return "", engine.Failf("mismatch", "a call with as many arguments as written parameters was refused: %v", err)
+				}
+				return "rejected", nil
+			}
+			ok := map[string]bool{"1": true, "2": true, "21": true, "320": true}
+			if !ok[out] {
+				return "", engine.Failf("mismatch", "rendered %q", out)
+			}
+			return "bound", nil
+		})
+	}
+	// a path after the call that uses a name only the function binds: the caller does not know it
+	for _, src := range []string{`<% let pick = fn(zi) { return pers } %><%= pick(1).Tags[zi] %>`, `<% let pick = fn() { let zj = 1
+ return pers } %><%= pick().Tags[zj] %>`, `<% let pick = fn(za) { return pers } %><%= pick(1).Add(za) %>`} {
+		src := src
+		t.Case("special callee name in the caller's path "+q(src), true, func() (string, *engine.Fail) {
+			e := &c16Env{}
+			out, err := Render(src, e.context())
+			if err == nil && strings.Contains(out, "t1") || out == "2" {
+				return "", engine.Failf("mismatch", "a name bound only inside the function was readable in the caller's path: rendered %q", out)
+			}
+			return "not-visible", nil
+		})
+	}
 	// more arguments than parameters: the call fails, or at least every argument is evaluated - surplus arguments
 	// are never dropped unevaluated
 	for _, src := range []string{
